@@ -160,11 +160,15 @@ type Log = Rc<RefCell<Vec<Ev>>>;
 #[derive(Clone)]
 struct SpyParams {
     log: Log,
+    /// > 0: rows whose identifier is a multiple of it are predicted as NaN, those one above as +infinity (an estimator
+    /// may legitimately predict such values, e.g. for rows with missing features); 0: every prediction is the finite echo
+    special_mod: i64,
 }
 
 /// Records what it is fitted on / asked to predict; predicts `id + 1000·model_id`.
 struct SpyEstimator<T> {
     model: usize,
+    special_mod: i64,
     log: Log,
     _t: PhantomData<T>,
 }
@@ -175,7 +179,7 @@ impl<T: RealNumber, M: Matrix<T>> SupervisedEstimator<M, M::RowVector, SpyParams
         let model = l.iter().filter(|e| matches!(e, Ev::Fit { .. })).count();
         l.push(Ev::Fit { model, rows: rows_of(x), y: vec_of(y) });
         drop(l);
-        Ok(SpyEstimator { model, log: parameters.log.clone(), _t: PhantomData })
+        Ok(SpyEstimator { model, special_mod: parameters.special_mod, log: parameters.log.clone(), _t: PhantomData })
     }
 }
 
@@ -185,7 +189,15 @@ impl<T: RealNumber, M: Matrix<T>> Predictor<M, M::RowVector> for SpyEstimator<T>
         let mut out = M::RowVector::zeros(rows.len());
         for (i, r) in rows.iter().enumerate() {
             let id = if r.is_empty() { -1.0 } else { r[0] };
-            out.set(i, t::<T>(id + (ID_MOD as f64) * self.model as f64));
+            let special = self.special_mod > 0 && id >= 0.0;
+            let v = if special && (id as i64) % self.special_mod == 0 {
+                f64::NAN
+            } else if special && (id as i64) % self.special_mod == 1 {
+                f64::INFINITY
+            } else {
+                id + (ID_MOD as f64) * self.model as f64
+            };
+            out.set(i, t::<T>(v));
         }
         self.log.borrow_mut().push(Ev::Predict { model: self.model, rows });
         Ok(out)
@@ -474,7 +486,7 @@ fn ids_of(d: &Data, pos: &[usize]) -> Vec<i64> {
     pos.iter().map(|&p| d.ids[p]).collect()
 }
 
-fn check_cvp(c: &mut Case, d: &Data, k: usize, shuffle: bool, log: &[Ev], y_hat: &[f64], reff: Option<&Folds>, sg: &str) {
+fn check_cvp(c: &mut Case, d: &Data, k: usize, shuffle: bool, log: &[Ev], y_hat: &[f64], reff: Option<&Folds>, sg: &str, special_mod: i64) {
     let n = d.n;
     let dec = match decode_log(c, "cvp", d, k, log, sg) {
         Some(x) => x,
@@ -530,8 +542,14 @@ fn check_cvp(c: &mut Case, d: &Data, k: usize, shuffle: bool, log: &[Ev], y_hat:
             continue; // already reported by the partition / leak oracles
         }
         checked += 1;
-        let want = d.ids[i] as f64 + (ID_MOD as f64) * unseen[0] as f64;
-        if y_hat[i] != want && bad.len() < 6 {
+        let want = if special_mod > 0 && d.ids[i] % special_mod == 0 {
+            f64::NAN
+        } else if special_mod > 0 && d.ids[i] % special_mod == 1 {
+            f64::INFINITY
+        } else {
+            d.ids[i] as f64 + (ID_MOD as f64) * unseen[0] as f64
+        };
+        if !(y_hat[i] == want || (y_hat[i].is_nan() && want.is_nan())) && bad.len() < 6 {
             let got = match decode_echo(d, y_hat[i]) {
                 Some((p, m)) => format!("the prediction of model {} for the sample at position {} (id {})", m, p, d.ids[p]),
                 None => "no prediction made by any model for any input row".to_string(),
@@ -666,7 +684,7 @@ fn cv_case<T: RealNumber, M: Matrix<T>>(c: &mut Case, d: &Data, k: usize, shuffl
     // ---- cross_validate
     {
         let log: Log = Rc::new(RefCell::new(Vec::new()));
-        let params = SpyParams { log: log.clone() };
+        let params = SpyParams { log: log.clone(), special_mod: 0 };
         let slog = log.clone();
         let score = move |yt: &M::RowVector, yp: &M::RowVector| -> T {
             let mut l = slog.borrow_mut();
@@ -690,13 +708,16 @@ fn cv_case<T: RealNumber, M: Matrix<T>>(c: &mut Case, d: &Data, k: usize, shuffl
     // ---- cross_val_predict
     {
         let log: Log = Rc::new(RefCell::new(Vec::new()));
-        let params = SpyParams { log: log.clone() };
+        // a quarter of the runs: the estimator predicts NaN / +inf for some rows — values like any other for the placement
+        let special_mod: i64 = if c.rng.bool(0.25) { c.rng.int(2, 6) } else { 0 };
+        c.bucket_if(special_mod > 0, "cvp:estimator-predicts-NaN/inf-for-some-rows");
+        let params = SpyParams { log: log.clone(), special_mod };
         let cv = KFold { n_splits: k, shuffle };
         if let Some(r) = c.must("cross_val_predict", || cross_val_predict(spy_fit::<T, M>, &x, &y, params, cv)) {
             match r {
                 Ok(y_hat) => {
                     let events = log.borrow().clone();
-                    check_cvp(c, d, k, shuffle, &events, &vec_of(&y_hat), reff.as_ref(), &sg);
+                    check_cvp(c, d, k, shuffle, &events, &vec_of(&y_hat), reff.as_ref(), &sg, special_mod);
                 }
                 Err(e) => {
                     c.check("cvp.ok", false, &sg, || format!("cross_val_predict returned Err({}) although no fit / predict failed", e));
@@ -758,6 +779,90 @@ fn cv_large(c: &mut Case) {
     c.nontrivial();
     kfold_buckets(c, n, k, shuffle);
     cv_dispatch(c, &d, k, shuffle, which);
+}
+
+// ---------------------------------------------------------------- user-defined splitter with partial coverage
+/// Forward chaining: the samples are cut into k+1 consecutive blocks; split j trains on blocks 0..=j and holds out
+/// block j+1. Block 0 is never held out.
+struct ForwardChain {
+    k: usize,
+}
+
+impl BaseKFold for ForwardChain {
+    type Output = std::vec::IntoIter<(Vec<usize>, Vec<usize>)>;
+    fn split<T: RealNumber, M: Matrix<T>>(&self, x: &M) -> Self::Output {
+        let n = x.shape().0;
+        let b = self.k + 1;
+        let cut = |j: usize| j * n / b;
+        (0..self.k).map(|j| ((0..cut(j + 1)).collect::<Vec<usize>>(), (cut(j + 1)..cut(j + 2)).collect::<Vec<usize>>())).collect::<Vec<_>>().into_iter()
+    }
+    fn n_splits(&self) -> usize {
+        self.k
+    }
+}
+
+/// cross_val_predict with a splitter that never holds out the leading block: every held-out prediction sits at its
+/// sample's position, and the entries of the samples that were never held out carry no information about the targets
+/// (the same call with other targets returns the same entries there).
+fn cvp_partial_t<T: RealNumber, M: Matrix<T>>(c: &mut Case, d: &Data, k: usize, be: &str) {
+    let (x, y): (M, M::RowVector) = d.build::<T, M>();
+    let n = d.n;
+    let sg = format!("{}/forward-chaining", be);
+    let mut y2 = y.clone();
+    for i in 0..n {
+        y2.set(i, y.get(i) + t::<T>(1000.0));
+    }
+    let mut outs: Vec<Vec<f64>> = Vec::new();
+    for yy in [&y, &y2] {
+        let log: Log = Rc::new(RefCell::new(Vec::new()));
+        let params = SpyParams { log: log.clone(), special_mod: 0 };
+        match c.must("cross_val_predict(forward chaining)", || cross_val_predict(spy_fit::<T, M>, &x, yy, params, ForwardChain { k })) {
+            Some(Ok(v)) => outs.push(vec_of(&v)),
+            Some(Err(e)) => {
+                c.check("cvp.partial.ok", false, &sg, || format!("cross_val_predict returned Err({}) for a forward-chaining splitter", e));
+                return;
+            }
+            None => return,
+        }
+    }
+    let b = k + 1;
+    let cut = |j: usize| j * n / b;
+    let first_test = cut(1);
+    if !c.check("cvp.partial.output-length", outs[0].len() == n && outs[1].len() == n, &sg, || format!("output lengths {} / {} for {} samples", outs[0].len(), outs[1].len(), n)) {
+        return;
+    }
+    // held-out positions: echo of (id, model j) where j is the split that held the block out
+    let mut bad: Vec<String> = Vec::new();
+    for j in 0..k {
+        for i in cut(j + 1)..cut(j + 2) {
+            let want = d.ids[i] as f64 + (ID_MOD as f64) * j as f64;
+            if outs[0][i] != want && bad.len() < 6 {
+                bad.push(format!("position {}: expected {} (held out by split {}), found {}", i, want, j, outs[0][i]));
+            }
+        }
+    }
+    c.check("cvp.partial.placement", bad.is_empty(), &sg, || clip(format!("n = {}, k = {}: {}", n, k, bad.join("; "))));
+    let leak: Vec<usize> = (0..first_test).filter(|&i| !(outs[0][i] == outs[1][i] || (outs[0][i].is_nan() && outs[1][i].is_nan()))).collect();
+    c.check("cvp.partial.unpredicted-entries-independent-of-targets", leak.is_empty(), &sg, || {
+        clip(format!("positions {:?} were never held out, yet their output entries change with the targets: {:?} for y, {:?} for y + 1000", leak, leak.iter().map(|&i| outs[0][i]).collect::<Vec<_>>(), leak.iter().map(|&i| outs[1][i]).collect::<Vec<_>>()))
+    });
+}
+
+fn cvp_partial(c: &mut Case) {
+    let n = c.rng.us(4, 40);
+    let k = c.rng.us(1, (n - 1).min(6));
+    let d = Data::draw(&mut c.rng, n);
+    let which = c.rng.below(BACKENDS);
+    c.describe(json!({"api": "cross_val_predict", "splitter": "forward chaining (leading block never held out)", "n": n, "k": k, "p": d.p, "ids": d.ids, "backend": backend_name(which)}));
+    c.nontrivial();
+    match which {
+        0 => cvp_partial_t::<f64, DenseMatrix<f64>>(c, &d, k, "dense-f64"),
+        1 => cvp_partial_t::<f32, DenseMatrix<f32>>(c, &d, k, "dense-f32"),
+        2 => cvp_partial_t::<f64, ndarray::Array2<f64>>(c, &d, k, "ndarray-f64"),
+        3 => cvp_partial_t::<f32, ndarray::Array2<f32>>(c, &d, k, "ndarray-f32"),
+        4 => cvp_partial_t::<f64, nalgebra::DMatrix<f64>>(c, &d, k, "nalgebra-f64"),
+        _ => cvp_partial_t::<f32, nalgebra::DMatrix<f32>>(c, &d, k, "nalgebra-f32"),
+    }
 }
 
 // ---------------------------------------------------------------- train_test_split
@@ -901,6 +1006,7 @@ fn main() {
             Family::new("cv_grid", GRID, GRID, cv_grid).exhaustive(true, true),
             Family::new("cv_shuffle", GRID, 10 * GRID, cv_shuffle),
             Family::new("cv_large", 200, 2000, cv_large),
+            Family::new("cvp_partial", 300, 3000, cvp_partial),
             Family::new("tts", 8000, 150000, tts),
         ],
         min_nontrivial: 2500,
